@@ -32,6 +32,34 @@ func main() {
 		os.Exit(2)
 	}
 	prop, mode := args[0], args[1]
+	if prop == "normalise" {
+		// vcheck normalise <out-dir>: debugging aid, keeps the normalised copy
+		ndir, notes, _, err := core.Normalize(*repo, *verif+"/tables/functions.txt")
+		fmt.Println(ndir, notes, err)
+		if ndir != *repo {
+			exec.Command("rsync", "-a", "--delete", ndir+"/", mode+"/").Run()
+			os.RemoveAll(ndir)
+		}
+		return
+	}
+	if prop == "inventory" {
+		// vcheck inventory <out-file>: write the function inventory of the tree at -repo
+		keys, err := core.Inventory(*repo)
+		if err != nil {
+			fmt.Fprintln(os.Stderr, err)
+			os.Exit(2)
+		}
+		out := "# functions of the module when the rule tables were frozen (one key per line); see core/normalize.go\n"
+		for _, k := range keys {
+			out += k + "\n"
+		}
+		if err := os.WriteFile(mode, []byte(out), 0o644); err != nil {
+			fmt.Fprintln(os.Stderr, err)
+			os.Exit(2)
+		}
+		fmt.Printf("%d functions\n", len(keys))
+		return
+	}
 	started := time.Now()
 	seed := int64(0)
 	if s := os.Getenv("VERIF_SEED"); s != "" {
@@ -143,7 +171,23 @@ func runOne(repo, verif, prop, tier, cfgName string, spec *rules.Spec) (res *cor
 			res.LoadErrors = append(res.LoadErrors, msg)
 		}
 	}()
-	p, err := core.Load(repo, cfg)
+	// functions the rule tables have never seen are analysed as part of their callers (core/normalize.go)
+	ndir, notes, cleanup, nerr := core.Normalize(repo, verif+"/tables/functions.txt")
+	defer cleanup()
+	if nerr != nil {
+		return &core.Result{Prop: prop, Tier: tier, Rules: map[string]string{}, Configs: []string{cfgName}, LoadErrors: []string{fmt.Sprintf("%s: %v", cfgName, nerr)}}
+	}
+	p, err := core.Load(ndir, cfg)
+	if err == nil && len(notes) > 0 {
+		defer func() {
+			if res != nil {
+				if res.Extra == nil {
+					res.Extra = map[string]any{}
+				}
+				res.Extra["normalisation"] = notes
+			}
+		}()
+	}
 	if err != nil {
 		return &core.Result{Prop: prop, Tier: tier, Rules: map[string]string{}, Configs: []string{cfgName}, LoadErrors: []string{fmt.Sprintf("%s: %v", cfgName, err)}}
 	}
